@@ -1160,6 +1160,13 @@ def main(tier, seed, replay=None, scale=1.0):
         "carries neither), sockets not carried",
         "atime is set into the future on the host tree so that relatime never changes the inputs between "
         "the two builds; ctime/atime/nanoseconds/directory sizes/lost+found are not compared",
+        "an inline-data file whose i_size exceeds the stored inline area reads as zeros beyond it (what the "
+        "kernel does); such files carry no block map, so no hole demand is made of them",
+        "objects that route A stored wrongly are not used to judge rdump/dump/cat (no double reporting)",
+        "keys: 'C18 <A|B|T> mismatch <attr> <kind>' (+ ' [inline_data]' for size/content/hole attributes on "
+        "inline_data filesystems), 'C18 rdump|dump|cat mismatch <attr> <kind>' with kind reg-inline for "
+        "files stored inline, 'C18 <route> e2fsck-fn <first problem>', 'C18 <route> pycheck <codes>', "
+        "'C18 not reproducible' / 'C18 B not reproducible'",
         "quota and ea_inode are left out of the feature sets (known defects judged by C07 / C15)",
     ]
     return rep.finish()
